@@ -1,6 +1,7 @@
 import Gv.Model.SW
 import Gv.Spec.SW
 import Gv.Proofs.SWSpec
+import Gv.Proofs.SWFill
 /-!
 # C09 — pairwise local alignment is valid, self-consistent and optimal
 
@@ -607,8 +608,74 @@ def schemeOf (a : Aligner) : Spec.SW.Scheme where
   gapopen := a.gapopen
   gapext := a.gapextend
 
+private theorem mapM_zip_mem {α β} (f : α → Option β) : ∀ (l : List α) (r : List β), l.mapM f = some r →
+    ∀ c ∈ l.zip r, f c.1 = some c.2 := by
+  intro l
+  induction l with
+  | nil => intro r _ c hc; simp at hc
+  | cons x t ih =>
+    intro r h c hc
+    cases hx : f x with
+    | none => simp [List.mapM_cons, hx] at h
+    | some v =>
+      cases ht : List.mapM f t with
+      | none => simp [List.mapM_cons, hx, ht] at h
+      | some w =>
+        simp [List.mapM_cons, hx, ht] at h
+        subst h
+        simp only [List.zip_cons_cons, List.mem_cons] at hc
+        rcases hc with rfl | hc
+        · exact hx
+        · exact ih w ht c hc
+
+private theorem backTrack_score {fixed : Bool} {gopen gext : Int} {m : Nat → Nat → Int} {tr : Nat → Nat → Dir}
+    {s1 s2 : Seq} {score : Int} {maxi maxj : Nat} {r : Result}
+    (h : backTrack fixed gopen gext m tr s1 s2 score maxi maxj = some r) : r.score = score := by
+  simp only [backTrack] at h
+  split at h
+  · simp at h
+  · simp only [Option.some.injEq] at h; subst h; rfl
+
+/-- **sw_score_is_optimum** — for the *repaired* code, all sequences, the built-in matrices or any
+match/mismatch scores, and any gap penalties with `gapopen ≤ gapextend < 0`: the reported score
+(`MaxScore()`) **equals** the optimum over all local alignments as defined by the specification
+(Gotoh program, itself proved to bound every local alignment and to be attained). -/
+theorem sw_score_is_optimum (den : Int) (s1 s2 : Seq) (go ge : Option Int) (mm : Option (Int × Int)) (r : Result)
+    (hgap : (configure den s1 s2 go ge mm).gapopen ≤ (configure den s1 s2 go ge mm).gapextend ∧
+            (configure den s1 s2 go ge mm).gapextend < 0)
+    (h : align (configure den s1 s2 go ge mm) true s1 s2 = Outcome.ok r) :
+    r.score = Spec.SW.gotohBest (schemeOf (configure den s1 s2 go ge mm)) s1 s2 := by
+  generalize configure den s1 s2 go ge mm = a at h hgap
+  simp only [align] at h
+  split at h
+  · simp at h
+  · split at h
+    · rename_i i1 i2 hi1 hi2
+      split at h
+      · simp at h
+      · split at h
+        · rename_i r' hbt
+          simp only [Outcome.ok.injEq] at h
+          subst h
+          rw [backTrack_score hbt]
+          have hl1 := mapM_length _ _ _ (seqToIndices_eq a s1 ▸ hi1)
+          have hl2 := mapM_length _ _ _ (seqToIndices_eq a s2 ▸ hi2)
+          have hz1 := mapM_zip_mem _ _ _ (seqToIndices_eq a s1 ▸ hi1)
+          have hz2 := mapM_zip_mem _ _ _ (seqToIndices_eq a s2 ▸ hi2)
+          have := Proofs.SWFill.fill_best_eq_gotoh a (schemeOf a) rfl rfl hgap.1 hgap.2 (s1.zip i1) (s2.zip i2)
+            (by
+              intro c1 h1 c2 h2
+              show matchScore a c1 c2 = matchScore a (c1.1, (idxOf a c1.1).getD 0) (c2.1, (idxOf a c2.1).getD 0)
+              rw [hz1 c1 h1, hz2 c2 h2]; rfl)
+          rw [this]
+          congr 1
+          · exact List.map_fst_zip (by omega)
+          · exact List.map_fst_zip (by omega)
+        · simp at h
+    · simp at h
+
 /-
-**sw_optimal** (full strength; OPEN — not proved).  For the repaired code:
+**sw_optimal** (full strength; OPEN — one conjunct not proved).  For the repaired code:
 
   theorem sw_optimal (den : Int) (s1 s2 : Seq) (go ge : Option Int) (mm : Option (Int × Int)) (r : Result)
       (hgap : (configure den s1 s2 go ge mm).gapopen ≤ (configure den s1 s2 go ge mm).gapextend ∧
@@ -617,36 +684,39 @@ def schemeOf (a : Aligner) : Spec.SW.Scheme where
       (hpos : ∃ p1 p2 cols, Spec.SW.IsLocal s1 s2 p1 p2 cols ∧
                 0 < Spec.SW.score (schemeOf (configure den s1 s2 go ge mm)) cols) :
       (∃ cols, Spec.SW.colsOfRows r.row1 r.row2 = some cols ∧
-          r.score = Spec.SW.score (schemeOf (configure den s1 s2 go ge mm)) cols) ∧
+          r.score = Spec.SW.score (schemeOf (configure den s1 s2 go ge mm)) cols) ∧            -- (A) OPEN
       (∀ p1 p2 cols, Spec.SW.IsLocal s1 s2 p1 p2 cols →
-          Spec.SW.score (schemeOf (configure den s1 s2 go ge mm)) cols ≤ r.score)
+          Spec.SW.score (schemeOf (configure den s1 s2 go ge mm)) cols ≤ r.score)              -- (B) proved
 
-It is FALSE for the shipped code (`fixed = false`): see the three `example`s below.  What is proved
-instead is `sw_optimal_partial`; the two missing links are named in its docstring and are evaluated
-by the oracle on every generated input.
+It is FALSE for the shipped code (`fixed = false`): see the `example`s below.  Proved instead:
+`sw_optimal_partial` = conjunct (B) at full strength plus "some local alignment scores exactly the
+reported score"; what is missing for (A) is that this alignment is the *returned* one.
 -/
 
-/-- **sw_optimal_partial** — optimality *given* that the reported score equals the Gotoh optimum of
-the specification (hypothesis `hg`).  Missing for `sw_optimal`: (1) `hg` itself, i.e. that the
-running maxima of `fillMatrix_SW` compute the Gotoh recurrences (needs an invariant over `fillRows`);
-(2) that the *returned rows* — not merely some local alignment — score `r.score` (needs the
-trace/matrix consistency of the fill).  Both are checked by the oracle on every generated case
-(`fail:not-optimal`, `fail:score-self`). -/
-theorem sw_optimal_partial (a : Aligner) (fixed : Bool) (s1 s2 : Seq) (r : Result)
-    (_h : align a fixed s1 s2 = Outcome.ok r)
-    (hg : r.score = Spec.SW.gotohBest (schemeOf a) s1 s2) :
-    (∀ p1 p2 cols, Spec.SW.IsLocal s1 s2 p1 p2 cols → Spec.SW.score (schemeOf a) cols ≤ r.score) ∧
-    (∃ p1 p2 cols, Spec.SW.IsLocal s1 s2 p1 p2 cols ∧ Spec.SW.score (schemeOf a) cols = r.score) := by
-  rw [hg]
-  exact ⟨fun _ _ _ h => Spec.SW.gotoh_upper _ h, Spec.SW.gotoh_attained _ s1 s2⟩
+/-- **sw_optimal_partial** — for the repaired code and every input: no local alignment of the two
+sequences scores higher than the reported score, and some local alignment scores exactly that.
+Missing for `sw_optimal`: that the alignment attaining the score is the one *returned*
+(trace/matrix consistency of the fill: `DIAG` cells hold diagonal + substitution score, `UP`/`LEFT`
+cells hold a gap of the length the trace-back recovers).  That conjunct is evaluated by the oracle on
+every generated case (verdict clause `score-self`). -/
+theorem sw_optimal_partial (den : Int) (s1 s2 : Seq) (go ge : Option Int) (mm : Option (Int × Int)) (r : Result)
+    (hgap : (configure den s1 s2 go ge mm).gapopen ≤ (configure den s1 s2 go ge mm).gapextend ∧
+            (configure den s1 s2 go ge mm).gapextend < 0)
+    (h : align (configure den s1 s2 go ge mm) true s1 s2 = Outcome.ok r) :
+    (∀ p1 p2 cols, Spec.SW.IsLocal s1 s2 p1 p2 cols →
+        Spec.SW.score (schemeOf (configure den s1 s2 go ge mm)) cols ≤ r.score) ∧
+    (∃ p1 p2 cols, Spec.SW.IsLocal s1 s2 p1 p2 cols ∧
+        Spec.SW.score (schemeOf (configure den s1 s2 go ge mm)) cols = r.score) := by
+  rw [sw_score_is_optimum den s1 s2 go ge mm r hgap h]
+  exact ⟨fun _ _ _ hl => Spec.SW.gotoh_upper _ hl, Spec.SW.gotoh_attained _ s1 s2⟩
 
 /-- score, rows of an outcome (for stating concrete instances) -/
 def scoreRows : Outcome → Option (Int × Seq × Seq)
   | .ok r => some (r.score, r.row1, r.row2)
   | _ => none
 
-/-- the hypotheses of `sw_optimal_partial` are satisfiable: repaired code on `CGA` / `CATCA`
-(10, −1, −3, −0.5): reported 17 (×2 = 34) = Gotoh optimum -/
+/-- the hypotheses of `sw_score_is_optimum` / `sw_optimal_partial` are satisfiable: repaired code on
+`CGA` / `CATCA` (10, −1, −3, −0.5): reported 17 (×2 = 34) = Gotoh optimum -/
 example :
     let a := configure 2 [67, 71, 65] [67, 65, 84, 67, 65] (some (-6)) (some (-1)) (some (20, -2))
     scoreRows (align a true [67, 71, 65] [67, 65, 84, 67, 65]) = some (34, [67, 71, 65], [67, 45, 65]) ∧
